@@ -1,0 +1,45 @@
+//go:build verif
+
+// Machine-checked contracts for package imagetype (comment-only; read by /verif/bin/vcgo).
+// Signature predicates sig*/specType are defined in /verif/specs/imagetype.spec from the format specifications.
+package imagetype
+
+//@ func parseBuffer
+//@   props C01 C09
+//@   requires len(buf) >= 24
+//@   pure
+//@   ensures [C09] r0 == ImageType(specType(buf))
+
+//@ func Buf
+//@   props C01 C09
+//@   entry
+//@   pure
+//@   ensures [C09] len(buf) < 24 ==> imageType == ImageUnknown && err == ErrDataLength
+//@   ensures [C09] len(buf) >= 24 ==> imageType == ImageType(specType(buf))
+//@   ensures [C09] len(buf) >= 24 ==> (err == ErrImageTypeNotFound <==> imageType == ImageUnknown)
+//@   ensures [C09] len(buf) >= 24 ==> err == nil || err == ErrImageTypeNotFound
+
+//@ func ScanBuf
+//@   props C01 C09
+//@   entry
+//@   requires br != nil
+//@   modifies stream(br)
+//@   ensures [C09] pos(br) == old(pos(br))
+//@   ensures [C09] err != nil ==> imageType == ImageUnknown
+//@   ensures [C09] err == nil ==> pos(br) + 24 <= lim(br) && imageType == ImageType(specType(window(br))) && imageType != ImageUnknown
+//@   ensures [C09] old(pos(br)) + 24 > lim(br) ==> imageType == ImageUnknown && err != nil
+//@   ensures [C09] old(pos(br)) + 24 <= lim(br) && !fault(br) && bsize(br) >= 24 ==> imageType == ImageType(specType(window(br))) && (err == nil || err == ErrImageTypeNotFound)
+
+//@ func Scan
+//@   props C01 C09
+//@   entry
+//@   requires r != nil
+//@   ensures [C09] err != nil ==> imageType == ImageUnknown
+//@   ensures [C09] err == nil ==> imageType != ImageUnknown
+
+//@ func ReadAt
+//@   props C01 C09
+//@   entry
+//@   requires r != nil
+//@   ensures [C09] err != nil ==> imageType == ImageUnknown
+//@   ensures [C09] err == nil ==> imageType != ImageUnknown && imageType == ImageType(specType(windowAt(r, 0)))
